@@ -48,7 +48,7 @@ type c08Case struct {
 }
 
 // C08Keys: string key alphabet with reserved characters.
-var C08Keys = []string{"a", "a b", "a/b", "a,b", "a=b", "100%", "é", "中", "+", "..", "a?b", "#x", "%41", ""}
+var C08Keys = []string{"a", "a b", "a/b", "a,b", "a=b", "100%", "é", "中", "+", "..", "a?b", "#x", "%41", "", "a:b", ":"}
 
 func c08Tree(m *meta.Module, name string) *model.Tree {
 	t := model.NewTree()
@@ -506,6 +506,15 @@ func (p *c08) Run(raw json.RawMessage) eng.Result {
 			checkPresent(n, nil, full+"/", "trailing-slash")
 			if n.leaf == nil {
 				checkPresent(n, nil, full+"?depth=9", "with-query")
+				checkPresent(n, nil, renderSegs(n.segs, m.Ident())+"?depth=9", "module-qualified-with-query")
+			}
+			if strings.Contains(full, "%3A") {
+				// ':' is a legal character of a path segment and need not be escaped
+				raw := strings.ReplaceAll(full, "%3A", ":")
+				checkPresent(n, nil, raw, "raw-colon")
+				if n.leaf == nil {
+					checkPresent(n, nil, raw+"?depth=9", "raw-colon-with-query")
+				}
 			}
 			// from every non-list ancestor
 			for i := 1; i < len(n.segs); i++ {
